@@ -24,6 +24,7 @@ LEVEL_TEXT = ("By-construction argument checked statically: single writer of Ass
               "write on every path, all constructors funnel into it, mutators disabled; IRDst uniqueness guard and "
               "fall-through completion ordering; edge creation for every leaf of the tracked destination. Holds for every "
               "lifter and every instruction because it constrains the only code that can create IR.")
+LEVEL_TEXT += ' Also: destination tracking walks every assignment block and rebuilds its worklist as {blk[d] if d in blk else d}; the worklist step classifies conditional / identifier / final destinations on every path.'
 ASSUMPTIONS = ["CPython ast; __slots__ prevents other attributes", "IR assignments exist only inside AssignBlock objects"]
 
 
